@@ -57,6 +57,8 @@ type Path struct {
 	bounds    map[string]int64
 	usesStr   bool
 	regs      []region
+	memo      map[string]interface{}
+	facts     map[string]bool
 }
 
 type observation struct {
@@ -142,6 +144,16 @@ func (p *Path) refine(c *Sym, truth bool) {
 			for _, a := range c.a {
 				if s, ok := a.(*Sym); ok {
 					p.refine(s, false)
+				}
+			}
+		}
+	case "contains":
+		if !truth {
+			if sub, ok := c.a[1].(string); ok {
+				for _, sg := range segmentsOf(c.a[0]) {
+					if ss, ok := sg.(*Sym); ok {
+						p.facts["nc|"+ss.e+"|"+sub] = true
+					}
 				}
 			}
 		}
